@@ -365,9 +365,13 @@ theorem decodePei_sat : Sat decodePei (fun _ => True) :=
 
 attribute [local irreducible] decodePei
 
-/-- the picture header parser: total; a returned header carries a quantizer below 32 -/
+theorem tr_bound (hi lo : Nat) (h1 : hi < 2 ^ 2) (h2 : lo < 256) : (hi <<< 8) ||| lo < 1024 := by
+  have : hi <<< 8 < 2 ^ 10 := by rw [Nat.shiftLeft_eq]; omega
+  exact Nat.or_lt_two_pow this (by omega)
+
+/-- the picture header parser: total; a returned header carries a quantizer below 32 and a temporal reference below 1024 -/
 theorem decodePicture_sat (d : DecOpts) (prev : Option PicHdr) :
-    Sat (decodePicture d prev) (fun r => ∀ h, r = some h → h.quantizer < 32) := by
+    Sat (decodePicture d prev) (fun r => ∀ h, r = some h → h.quantizer < 32 ∧ h.tr < 1024) := by
   have h1 := decodePei_sat
   have h2 := decodePtype_sat
   have h3 := decodePlusptype_sat d (match prev with | some p => p.options | none => 0)
@@ -383,9 +387,21 @@ theorem decodePicture_sat (d : DecOpts) (prev : Option PicHdr) :
   have h13 := decodeDbquant_sat
   have h14 : ∀ f, Sat (decodeElnumRlnum f) (fun _ => True) := decodeElnumRlnum_sat
   have h15 : ∀ b, Sat (decodeTrb b) (fun _ => True) := decodeTrb_sat
+  have htr : ∀ (lowTr : Nat), lowTr < 256 → ∀ b : Bool, Sat (if b = true then do
+          let hi ← readBits 16 2
+          pure ((hi <<< 8) ||| lowTr)
+        else pure lowTr : P Nat) (fun tr => tr < 1024) := by
+    intro lowTr hl b
+    refine Sat.ite (fun _ => ?_) (fun _ => ?_)
+    · refine Sat.bind (Sat.readBits 16 2) (fun hi hh => ?_)
+      exact Sat.pure _ _ (tr_bound hi lowTr hh hl)
+    · exact Sat.pure _ _ (by omega)
   unfold decodePicture
   apply Sat.transactionUnion
-  repeat' (first | sat_step | exact h15 _ | exact h14 _)
+  repeat' (first
+    | (refine Sat.pure _ _ ?_; intro h hh; cases hh; constructor <;> (try dsimp only) <;> first | assumption | omega)
+    | (refine Sat.bind (htr _ (by assumption) _) ?_; intro _ _)
+    | sat_step | exact h15 _ | exact h14 _)
 
 theorem decodeGob_sat : Sat decodeGob (fun _ => True) := by
   refine ⟨fun c => ?_⟩
